@@ -143,6 +143,9 @@ impl Conn {
         // SYN
         let syn_opts = |client: bool, k: u64| -> (Vec<u8>, Option<u32>) {
             match self.ts {
+                // one timestamp-less connection in five opens with bare 20-byte TCP headers (no options at all): the smallest
+                // segments there are - 40 bytes of IPv4 - for everything that checks lengths before it reads ports
+                None if self.window % 5 == 0 => (vec![], None),
                 None => (encode_opts(&[OptItem::Mss(1460), OptItem::Nop, OptItem::Ws(7), OptItem::Nop, OptItem::Nop, OptItem::Sok]), None),
                 Some(_) => {
                     let (o, v) = tsopt(client, k, if client { 0 } else { 1 });
